@@ -203,10 +203,24 @@ func (e *explorer) check(x *Exec, res *Result, choices []int32, devs int, counte
 		return
 	}
 	e.vioOutcome[hk] = struct{}{}
-	sig := msg
-	if k := strings.Index(msg, ":"); k >= 0 {
-		sig = msg[:k]
+	// an oracle may report several violations of one execution (one per line), e.g. a delivery
+	// fault and the deadlock it leads to: each has its own signature and (possibly) its own owner
+	for _, m := range strings.Split(msg, "\n") {
+		if m != "" {
+			e.record(m, choices, devs)
+		}
 	}
+}
+
+func sigOf(msg string) string {
+	if k := strings.Index(msg, ":"); k >= 0 {
+		return msg[:k]
+	}
+	return msg
+}
+
+func (e *explorer) record(msg string, choices []int32, devs int) {
+	sig := sigOf(msg)
 	if old, ok := e.vio[sig]; ok && old.Devs <= devs {
 		return
 	}
@@ -216,8 +230,11 @@ func (e *explorer) check(x *Exec, res *Result, choices []int32, devs int, counte
 		_, r2 := runOne(e.sc.Opts, choices, nil, e.sc.Run, nil, nil)
 		// the same schedule must fail with the same signature (the text after the colon may carry
 		// run-dependent detail)
-		if m2 := e.sc.Check(r2); m2 == msg || (m2 != "" && strings.SplitN(m2, ":", 2)[0] == sig) {
-			conf++
+		for _, m2 := range strings.Split(e.sc.Check(r2), "\n") {
+			if m2 != "" && sigOf(m2) == sig {
+				conf++
+				break
+			}
 		}
 	}
 	if conf < 5 {
